@@ -654,6 +654,12 @@ class UpdateCollection(Message):
             # MP_REACH_NLRI contains nexthop - use iter_routed() for RoutedNLRI
             announces.extend(reach.iter_routed())
 
+        if Attribute.CODE.INTERNAL_TREAT_AS_WITHDRAW in attributes:
+            # RFC 7606 2: every route of an UPDATE with such a malformed attribute is handled
+            # as if it had been listed in the withdrawn routes
+            withdraws.extend(routed.nlri for routed in announces)
+            announces = []
+
         return cls(announces, withdraws, attributes)
 
     # EOR prefix for non-IPv4-unicast families
